@@ -48,6 +48,7 @@ class Outcome:
         self.lines = 0
         self.fired_at = ''
         self.event_names = []
+        self.same_lab_is_cached = None   # what the Lab object that ran the failing save answers afterwards
 
     def summary(self):
         d = dict(self.__dict__)
@@ -96,6 +97,12 @@ def run_case(case: dict, count: bool = False) -> Outcome:
             os.environ['VERIF_LINE_FAULT'] = f"{inj['at'] if inj['kind'] == 'line' else 'count'}|{inj.get('action', 'raise')}|{linelog}"
         lab = labtech.Lab(storage=storage, runner_backend=case['backend'], context={'gen': 'new'}, notebook=False, max_workers=1)
         task2 = make_task(case)
+        if overwrite:
+            # history: the Lab that is about to replace the entry has already looked at it (exists() is not a fault point)
+            try:
+                lab.is_cached(task2)
+            except Exception:
+                pass
         try:
             res = lab.run_tasks([task2], bust_cache=overwrite, disable_progress=True, disable_top=True)
             out.reported = 'succeeded' if task2 in res else 'failed'
@@ -121,6 +128,10 @@ def run_case(case: dict, count: bool = False) -> Outcome:
             out.fired_at = open(linelog + '.fired').read()
         if inj['kind'] == 'none':
             out.reached = True
+        try:
+            out.same_lab_is_cached = lab.is_cached(task2)
+        except Exception as ex:
+            out.same_lab_is_cached = f'raised:{type(ex).__name__}'
         post_state(case, inner, store, obs, out)
         return out
     finally:
@@ -202,6 +213,8 @@ def judge(prop: str, case: dict, out: Outcome, expect_reported: str) -> list[cor
         if out.in_cached_tasks is not None and out.in_cached_tasks != 1:
             findings.append(core.Finding(f'{prop}:{phase}:is_cached-but-cached_tasks-lists-it-{out.in_cached_tasks}-times:{window}', f'disk={out.disk}'))
     elif out.is_cached is False:
+        if out.same_lab_is_cached is True:
+            findings.append(core.Finding(f'{prop}:{phase}:lab-that-ran-the-failing-save-still-reports-the-entry-cached', f'a new Lab: not cached; disk={out.disk}'))
         if out.in_cached_tasks:
             findings.append(core.Finding(f'{prop}:{phase}:not-is_cached-but-listed-by-cached_tasks', f'disk={out.disk}'))
     else:
